@@ -99,7 +99,11 @@ func main() {
 }
 
 func loadAll(opt *Options) (*Universe, error) {
-	u, err := loadUniverse(opt.Repo, "")
+	return loadAllTags(opt, "")
+}
+
+func loadAllTags(opt *Options, tags string) (*Universe, error) {
+	u, err := loadUniverse(opt.Repo, tags)
 	if err != nil {
 		return nil, err
 	}
@@ -182,6 +186,41 @@ func runCheck(prop string, opt *Options) int {
 				continue
 			}
 			results = append(results, u.verifyLemma(l))
+		}
+	}
+	// second pass under an extra build tag for packages that ask for it
+	doneTags := map[string]bool{}
+	for _, c := range contracts {
+		tag := u.AlsoTags[c.PkgPath]
+		if tag == "" || doneTags[tag+"|"+c.PkgPath] {
+			continue
+		}
+		doneTags[tag+"|"+c.PkgPath] = true
+		u2, err := loadAllTags(opt, tag)
+		if err != nil {
+			fmt.Fprintf(os.Stderr, "UNDECIDED: cannot load the repository with build tag %s: %v\n", tag, err)
+			return 2
+		}
+		var k2 []string
+		for k, c2 := range u2.Contracts {
+			if !c2.Assumed && hasProp(c2.Props, prop) && c2.PkgPath == c.PkgPath {
+				k2 = append(k2, k)
+			}
+		}
+		sort.Strings(k2)
+		for _, k := range k2 {
+			c2 := u2.Contracts[k]
+			if opt.Only != "" && !strings.Contains(c2.Key, opt.Only) {
+				continue
+			}
+			for _, r := range u2.verifyContractAll(c2) {
+				r.Name += "[tag " + tag + "]"
+				for _, o := range r.Obls {
+					o.Name = strings.Replace(o.Name, "#", "[tag "+tag+"]#", 1)
+					o.Func += "[tag " + tag + "]"
+				}
+				results = append(results, r)
+			}
 		}
 	}
 	extra := runExtras(prop, u, opt)
